@@ -61,6 +61,7 @@ struct dthread {
     int woken, timedout;
     uint64_t wait_seq;
     int result;
+    int fail_creates, fail_err; /* ds_fail_next_create */
 };
 
 static struct {
@@ -398,11 +399,16 @@ static int apply(struct dthread *t) {
             log_event(t->ord, DS_EXIT, '-', -1, 0);
             break;
         case DS_CREATE:
-            if (G.create_count++ == G.fail_at) {
-                r = G.fail_err;
+            if (t->fail_creates > 0 || G.create_count == G.fail_at) {
+                r = t->fail_creates > 0 ? t->fail_err : G.fail_err;
+                if (t->fail_creates > 0) {
+                    t->fail_creates--;
+                }
+                G.create_count++;
                 t->obj = -1;
                 log_event(t->ord, DS_CREATE, 't', -1, r);
             } else {
+                G.create_count++;
                 if (G.nth == DS_MAX_THREADS) {
                     die("too many threads");
                 }
@@ -930,6 +936,13 @@ void ds_yield(int tag) {
     }
     post(s, DS_YIELD, -1, -1, tag);
     ds_point(s);
+}
+void ds_fail_next_create(int count, int err) {
+    struct dthread *s = scheduled_self();
+    if (s) {
+        s->fail_creates = count;
+        s->fail_err = err;
+    }
 }
 void ds_inject_create_failure(long n, int err) {
     G.fail_at = n;
